@@ -73,6 +73,7 @@ a regular expression, so the synchronization above could also be achieved with:
 
     dst_job.sync(src_job, doc_sync=sync.DocSync.ByKey('foo'))
 """
+import errno
 import logging
 import os
 import re
@@ -327,7 +328,20 @@ class _FileModifyProxy:
     def copytree(self, src, dst, **kwargs):
         """Copy tree src to dst."""
         logger.more(f"Copy tree '{_safe_relpath(src)}' -> '{_safe_relpath(dst)}'.")
-        shutil.copytree(src, dst, copy_function=self.copy, **kwargs)
+        if self.dry_run:
+            # shutil.copytree would create the directories. Raise the same
+            # errors for a missing source or an existing destination, and only
+            # report the files that would be copied.
+            if not os.path.isdir(src):
+                raise FileNotFoundError(errno.ENOENT, os.strerror(errno.ENOENT), src)
+            if os.path.lexists(dst):
+                raise FileExistsError(errno.EEXIST, os.strerror(errno.EEXIST), dst)
+            for dirpath, _, filenames in os.walk(src):
+                for fn in filenames:
+                    fn_src = os.path.join(dirpath, fn)
+                    self.copy(fn_src, os.path.join(dst, os.path.relpath(fn_src, src)))
+        else:
+            shutil.copytree(src, dst, copy_function=self.copy, **kwargs)
 
     @contextmanager
     def create_backup(self, path):
